@@ -188,8 +188,11 @@ def C08(ctx):
     R.c08_r1(ctx, f)
     d_sel = G.c11_r8(ctx, f)
     R.c04_r1(soft_if(ctx, d_sel, "C11.R8"), f)
-    G.prepare(ctx, f, {"blank", "format", "masks"})
+    G.prepare(ctx, f, {"blank", "format", "masks", "place"})
     d_masks = G.c08_r4(ctx, f)
+    # the encoding region the sweeps act on is the set of data-labelled modules: placement must leave every one of them
+    # (remainder-bit modules included) labelled data
+    G.c01_r5(ctx, f, rid="C08.R6")
     sctx = soft_if(ctx, d_masks, "C08.R4")
     tbl = T.c08_dispatch(sctx, f)
     T.c08_t1(sctx, f, tbl)
